@@ -754,8 +754,31 @@ def t2_eps(draw):
 
 
 @st.composite
+def t2_eps_skewed(draw):
+    """18-30 episodes in which a contiguous burst (one shard's worth) holds most of the best matches for 'apple': the
+    cross-shard merge must still reconstruct the global top-k when one shard supplies more than its even share."""
+    n = draw(st.sampled_from([18, 24, 30]))
+    burst_at = draw(st.integers(0, n - 6))
+    burst_len = draw(st.integers(4, 8))
+    enc = world.BowEncoder()
+    eps = []
+    fillers = [w for w in world.VOCAB if w != "apple"]
+    for i in range(n):
+        if burst_at <= i < burst_at + burst_len:
+            extra = draw(st.lists(st.sampled_from(fillers), min_size=0, max_size=3))
+            text = " ".join(["apple"] * draw(st.integers(1, 3)) + extra)
+        else:
+            words = draw(st.lists(st.sampled_from(fillers + ["apple"]), min_size=1, max_size=4))
+            text = " ".join(words)
+        eps.append({"id": f"m{(i * 7) % n:02d}", "owner": draw(st.sampled_from(["A", "A", "A", "B"])), "text": text,
+                    "vec_full": enc.vec(text), "ts": world.iso_minus(world.NOW_ISO, draw(st.sampled_from([0, 3600, 86400, 5 * 86400])))})
+    return eps
+
+
+@st.composite
 def t2_cases(draw):
-    eps = draw(st.one_of(t2_eps(), t2_eps(), t2_eps(), world.episode_lists().filter(lambda e: len(e) >= 2)))
+    skewed = draw(st.sampled_from([False, False, False, True]))
+    eps = draw(t2_eps_skewed()) if skewed else draw(st.one_of(t2_eps(), t2_eps(), t2_eps(), world.episode_lists().filter(lambda e: len(e) >= 2)))
     graphs = {}
     for gid in draw(st.lists(st.sampled_from(["g1", "g2"]), max_size=2, unique=True)):
         graphs[gid] = draw(world.graph_specs(max_nodes=5, max_edges=3))
@@ -785,10 +808,15 @@ def t2_cases(draw):
     agent = draw(st.sampled_from(["A", "A", "B", "world"]))
     ep_words = [w for e in eps for w in (e.get("text") or "").lower().split()] or world.VOCAB
     text = " ".join(draw(st.lists(st.sampled_from(ep_words + world.VOCAB[:3]), min_size=1, max_size=3)))
+    if skewed:
+        text = draw(st.sampled_from(["apple", "apple", "apple pear"]))
+        t2["k_retrieval"] = draw(st.sampled_from([3, 5, 6, 10]))
+        t2["sim_threshold"] = draw(st.sampled_from([0.0, 0.1]))
+        t2["owner_scope"] = "any"
     node_ids = sorted({nd["id"] for s in graphs.values() for nd in s["nodes"]})
     t1_ids = draw(st.lists(st.sampled_from(node_ids), max_size=3, unique=True)) if node_ids else []
     return {"eps": eps, "graphs": graphs, "t2": t2, "agent": agent, "text": text, "t1_ids": t1_ids,
-            "slice_k": draw(st.sampled_from([None, None, None, 0, 1, 2])), "workers": draw(st.sampled_from([2, 2, 3, 4, 5, 6, 8])),
+            "slice_k": draw(st.sampled_from([None, None, None, 0, 1, 2])), "workers": draw(st.sampled_from([3, 3, 4, 5, 6] if skewed else [2, 2, 3, 4, 5, 6, 8])),
             "prio": list(draw(st.permutations(list(range(12))))), "off": draw(st.sampled_from(OFF_MODES)),
             "metrics_gate": draw(st.sampled_from([False, False, True])), "layers": layers}
 
